@@ -35,25 +35,25 @@ type TierSpec struct {
 
 // UnitSpec describes one harness entry point.
 type UnitSpec struct {
-	Name      string   `json:"name"`
-	Clause    string   `json:"clause"`
-	Dir       string   `json:"dir"`      // package directory relative to the repository root
-	LoadDir   string   `json:"load_dir"` // module directory to load from (default: Dir's module)
-	Pkg       string   `json:"pkg"`      // pattern (default ".")
-	Harness   []string `json:"harness"`  // harness files relative to /verif
-	Entry     string   `json:"entry"`
-	Solver    string   `json:"solver"`
-	Secondary string   `json:"secondary"`
-	HardTo    string   `json:"hard_to"`
-	Fallback  []string `json:"fallback"`
-	Replay    string   `json:"replay"` // "native" (default for sequential) | "engine" | "none"
-	Quick     TierSpec `json:"quick"`
-	Thorough  TierSpec `json:"thorough"`
-	Reach     []string `json:"reach"` // labels that must be reached (vacuity guard)
+	Name      string            `json:"name"`
+	Clause    string            `json:"clause"`
+	Dir       string            `json:"dir"`      // package directory relative to the repository root
+	LoadDir   string            `json:"load_dir"` // module directory to load from (default: Dir's module)
+	Pkg       string            `json:"pkg"`      // pattern (default ".")
+	Harness   []string          `json:"harness"`  // harness files relative to /verif
+	Entry     string            `json:"entry"`
+	Solver    string            `json:"solver"`
+	Secondary string            `json:"secondary"`
+	HardTo    string            `json:"hard_to"`
+	Fallback  []string          `json:"fallback"`
+	Replay    string            `json:"replay"` // "native" (default for sequential) | "engine" | "none"
+	Quick     TierSpec          `json:"quick"`
+	Thorough  TierSpec          `json:"thorough"`
+	Reach     []string          `json:"reach"` // labels that must be reached (vacuity guard)
 	Stubs     map[string]string `json:"stubs"` // function full name -> harness function replacing it
-	Assume    []string `json:"assumptions"`
-	NonTermV  bool     `json:"nontermination_is_violation"`
-	RealFmt   bool     `json:"real_fmt"`
+	Assume    []string          `json:"assumptions"`
+	NonTermV  bool              `json:"nontermination_is_violation"`
+	RealFmt   bool              `json:"real_fmt"`
 }
 
 // CheckSpec is /verif/checks/<id>.json.
@@ -348,9 +348,22 @@ func (r *checkRun) runUnit(u *UnitSpec, ts TierSpec) {
 	if len(opt.Fallback) == 0 {
 		opt.Fallback = []string{"z3new", "cvc5int", "cvc5"}
 	}
-	if ts.BudgetS > 0 {
-		opt.Deadline = time.Now().Add(time.Duration(ts.BudgetS) * time.Second)
+	budget := ts.BudgetS
+	if budget == 0 && r.tier == "quick" {
+		// safety net for mutated trees whose state space explodes: report what was found so far and
+		// say that the bound was not exhausted (never reached on the unchanged tree)
+		budget = 600
 	}
+	if budget > 0 {
+		opt.Deadline = time.Now().Add(time.Duration(budget) * time.Second)
+	}
+	opt.KnownFP = map[string]bool{}
+	for _, k := range loadKnown() {
+		if k.Property == r.id && k.Status == "open" {
+			opt.KnownFP[k.Fingerprint] = true
+		}
+	}
+	opt.GraceAfterNew = 60 * time.Second
 	res.prog, res.opt, res.loadDir, res.pattern = prog, opt, loadDir, pattern
 	res.report = sx.Explore(prog, opt)
 	for _, l := range u.Reach {
